@@ -319,6 +319,14 @@ def random_history(rng, cfg, length, weights=None, mask=(), inject_prob=0.0):
                 continue
             lines.append("swap %d %d" % (a, b))
             pool[a], pool[b] = pool[b], pool[a]
+        elif op == "relocate":
+            dead = [k for k in range(K) if pool[k] is None]
+            if not dead:
+                continue
+            t = rng.choice(dead)
+            lines.append("relocate %d %d" % (a, t))
+            pool[t] = pool[a]
+            pool[a] = None
         elif op == "self_swap":
             lines.append("swap %d %d" % (a, a))
         elif op == "self_copy_assign":
